@@ -859,48 +859,40 @@ theorem pendingLost_lost_self (t n : Nat) : pendingLost t [Msg.lost t n] = n := 
 theorem pendingLost_lost_other {t x : Tid} (n : Nat) (h : x ≠ t) : pendingLost x [Msg.lost t n] = 0 := by
   simp [pendingLost, Ne.symm h]
 
-theorem both_reportTail {cfg : Cfg} {s : State} {t : Tid} (ha : AInv cfg s)
-    (hother : ∀ x, x ≠ t → (s.prod x).done = true → (s.prod x).losts = 0 ∨ s.pipeClosed = true)
-    (hcf : cfg.tailFix = true → True) :
-    AInv cfg (reportTail cfg t s) ∧
-    (cfg.tailFix = true → ∀ x, ((reportTail cfg t s).prod x).done = true →
-      (x = t ∨ True) → (x ≠ t → ((reportTail cfg t s).prod x).losts = 0 ∨ (reportTail cfg t s).pipeClosed = true)) := by
-  constructor
-  · unfold reportTail
-    simp only []
-    split
-    · rename_i hg
-      simp only [Bool.and_eq_true, Bool.not_eq_true', decide_eq_true_eq] at hg
-      have hcl := hg.2
-      rw [send_open _ (by simpa using hcl)]
-      refine ⟨?_, ?_, ha.total⟩
-      · intro hf x
-        by_cases hx : x = t
-        · subst hx
-          have := ha.acct hf x
-          simp [State.setProd, nDropped_append, nDropped, List.sum_append]
-          omega
-        · simp only [State.setProd, hx, if_false]; exact ha.acct hf x
-      · intro x
-        by_cases hx : x = t
-        · subst hx
-          have := ha.deliv x
-          simp only [lostFrom] at this ⊢
-          simp [State.setProd, pendingLost_append, pendingLost, List.sum_append]
-          omega
-        · have := ha.deliv x
-          simp only [lostFrom] at this ⊢
-          simp [State.setProd, hx, pendingLost_append, pendingLost, Ne.symm hx]
-          omega
-    · exact ha
-  · intro _ x hd _ hx
-    have hp : (reportTail cfg t s).prod x = s.prod x := by
-      unfold reportTail; simp only []; split
-      · rw [send_prod]; exact setProd_prod_ne _ _ hx
-      · rfl
-    have hc : (reportTail cfg t s).pipeClosed = s.pipeClosed := by
-      unfold reportTail; simp only []; split <;> simp
-    rw [hp] at hd ⊢; rw [hc]; exact hother x hx hd
+theorem ainv_reportTail {cfg : Cfg} {s : State} {t : Tid} (ha : AInv cfg s) : AInv cfg (reportTail cfg t s) := by
+  unfold reportTail
+  simp only []
+  split
+  · rename_i hg
+    simp only [Bool.and_eq_true, Bool.not_eq_true', decide_eq_true_eq] at hg
+    have hcl := hg.2
+    rw [send_open _ (by simpa using hcl)]
+    refine ⟨?_, ?_, ha.total⟩
+    · intro hf x
+      by_cases hx : x = t
+      · subst hx
+        have := ha.acct hf x
+        simp [State.setProd, nDropped_append, nDropped, List.sum_append]
+        omega
+      · simp only [State.setProd, hx, if_false]; exact ha.acct hf x
+    · intro x
+      by_cases hx : x = t
+      · subst hx
+        have := ha.deliv x
+        simp only [lostFrom] at this ⊢
+        simp [State.setProd, pendingLost_append, pendingLost, List.sum_append]
+        omega
+      · have := ha.deliv x
+        simp only [lostFrom] at this ⊢
+        simp [State.setProd, hx, pendingLost_append, pendingLost, Ne.symm hx]
+        omega
+  · exact ha
+
+theorem reportTail_other {cfg : Cfg} {s : State} {t x : Tid} (hx : x ≠ t) :
+    (reportTail cfg t s).prod x = s.prod x ∧ (reportTail cfg t s).pipeClosed = s.pipeClosed := by
+  unfold reportTail; simp only []; split
+  · exact ⟨by rw [send_prod]; exact setProd_prod_ne _ _ hx, by simp⟩
+  · exact ⟨rfl, rfl⟩
 
 theorem reportTail_tail {cfg : Cfg} {s : State} {t : Tid} (hf : cfg.tailFix = true) :
     ((reportTail cfg t s).prod t).losts = 0 ∨ (reportTail cfg t s).pipeClosed = true := by
@@ -913,6 +905,254 @@ theorem reportTail_tail {cfg : Cfg} {s : State} {t : Tid} (hf : cfg.tailFix = tr
     by_cases hl : (s.prod t).losts > 0
     · exact Or.inr (hg hl)
     · left; omega
+
+theorem finishCore_facts {s s' : State} {t : Tid} (hs : finishCore s t = some s') :
+    (∀ x, nDropped (s'.prod x).log = nDropped (s.prod x).log ∧ (s'.prod x).lostMsgs = (s.prod x).lostMsgs ∧
+      (s'.prod x).losts = (s.prod x).losts) ∧ (∀ x, x ≠ t → s'.prod x = s.prod x) ∧
+    (∀ x, pendingLost x s'.pipe = pendingLost x s.pipe) ∧ s'.lostLog = s.lostLog ∧ s'.lostCount = s.lostCount ∧
+    s'.pipeClosed = s.pipeClosed := by
+  simp only [finishCore] at hs
+  split at hs
+  · have ite_some : ∀ (c : Prop) [Decidable c] (A B : State),
+        (if c then some A else some B) = some s' → s' = A ∨ s' = B := by
+      intro c _ A B h; split at h <;> injection h with h <;> simp [h]
+    have base : ∀ (p' : Prod), nDropped p'.log = nDropped (s.prod t).log → p'.lostMsgs = (s.prod t).lostMsgs →
+        p'.losts = (s.prod t).losts →
+        (∀ x, nDropped ((s.setProd t p').prod x).log = nDropped (s.prod x).log ∧
+          ((s.setProd t p').prod x).lostMsgs = (s.prod x).lostMsgs ∧ ((s.setProd t p').prod x).losts = (s.prod x).losts) ∧
+        (∀ x, x ≠ t → (s.setProd t p').prod x = s.prod x) := by
+      intro p' h1 h2 h3
+      refine ⟨?_, fun x hx => setProd_prod_ne _ _ hx⟩
+      intro x
+      by_cases hx : x = t
+      · subst hx; simp [h1, h2, h3]
+      · rw [setProd_prod_ne _ _ hx]; exact ⟨rfl, rfl, rfl⟩
+    cases hc : (s.prod t).curr with
+    | none =>
+      simp only [hc] at hs; injection hs with hs; subst hs
+      obtain ⟨b1, b2⟩ := base _ rfl rfl rfl
+      exact ⟨b1, b2, fun _ => rfl, rfl, rfl, rfl⟩
+    | some c =>
+      simp only [hc] at hs
+      rcases ite_some _ _ _ hs with e | e
+      · subst e
+        obtain ⟨b1, b2⟩ := base _ rfl rfl rfl
+        refine ⟨fun x => by rw [send_prod]; exact b1 x, fun x hx => by rw [send_prod]; exact b2 x hx,
+          fun x => pendingLost_send x (rec_msgs_not_lost t x c).2.1, by simp, by simp, by simp⟩
+      · subst e
+        obtain ⟨b1, b2⟩ := base _ rfl rfl rfl
+        exact ⟨b1, b2, fun _ => rfl, rfl, rfl, rfl⟩
+  · simp at hs
+
+theorem both_step {cfg : Cfg} {s s' : State} {a : Action} (h : AInv cfg s ∧ TailInv cfg s)
+    (hs : step cfg s a = some s') : AInv cfg s' ∧ TailInv cfg s' := by
+  cases a with
+  | pPrepare t =>
+    simp only [step] at hs
+    split at hs
+    · simp at hs
+    · injection hs with hs; subst hs
+      exact both_send (both_setProd h rfl) (fun x => (rec_msgs_not_lost t x 0).1)
+  | pWrite t r =>
+    simp only [step] at hs
+    split at hs
+    · injection hs with hs; subst hs; exact both_setProd h rfl
+    · simp at hs
+  | pBump t =>
+    simp only [step] at hs
+    split at hs
+    · split at hs
+      · simp at hs
+      · split at hs
+        · injection hs with hs; subst hs; exact both_setProd h rfl
+        · injection hs with hs; subst hs
+          exact both_setProd h (by simp [key, nDropped_append, nDropped])
+    · simp at hs
+  | pBump2 t =>
+    simp only [step] at hs
+    split at hs
+    · split at hs
+      · simp at hs
+      · injection hs with hs; subst hs
+        exact both_setProd h (by simp [key, nDropped_append, nDropped])
+    · simp at hs
+  | pEnd t r =>
+    simp only [step] at hs
+    split at hs
+    · split at hs
+      · rename_i c _
+        injection hs with hs; subst hs
+        exact both_send (both_setProd h rfl) (fun x => (rec_msgs_not_lost t x c).2.1)
+      · injection hs with hs; subst hs; exact both_setProd h rfl
+    · simp at hs
+  | pPick t ok =>
+    simp only [step] at hs
+    split at hs
+    · split at hs
+      · simp at hs
+      · rename_i hce
+        have hce : s.canEmit t = true := by simpa using hce
+        obtain ⟨_, _, hdn, _⟩ := canEmit_iff.mp hce
+        split at hs
+        · split at hs
+          · injection hs with hs; subst hs; exact both_setProd h rfl
+          · simp at hs
+        · split at hs
+          · injection hs with hs; subst hs; exact both_setProd h rfl
+          · injection hs with hs; subst hs
+            apply both_of h t (fun x hx => setProd_prod_ne _ _ hx) (fun _ _ => rfl) rfl rfl id
+            · intro hf
+              have := h.1.acct hf t
+              simp [nDropped_append, nDropped, hf]
+              omega
+            · intro _ hd; simp [hdn] at hd
+            · simpa using h.1.deliv t
+    · simp at hs
+  | pStart t =>
+    simp only [step] at hs
+    split at hs
+    · rename_i r c _ _
+      split at hs
+      · simp at hs
+      · injection hs with hs; subst hs
+        exact both_send (both_setProd h rfl) (fun x => (rec_msgs_not_lost t x c).1)
+    · simp at hs
+  | pMark t =>
+    simp only [step] at hs
+    split at hs
+    · split at hs
+      · simp at hs
+      · rename_i hce
+        have hce : s.canEmit t = true := by simpa using hce
+        obtain ⟨_, _, hdn, hcl⟩ := canEmit_iff.mp hce
+        split at hs
+        · injection hs with hs; subst hs
+          rw [send_open _ (by simpa using hcl)]
+          apply both_of h t
+          · intro x hx; exact setProd_prod_ne _ _ hx
+          · intro x hx; simp [pendingLost_append, pendingLost, Ne.symm hx]
+          · rfl
+          · rfl
+          · exact id
+          · intro hf
+            have := h.1.acct hf t
+            simp [nDropped_append, nDropped, List.sum_append]
+            omega
+          · intro _ hd; simp [hdn] at hd
+          · have := h.1.deliv t
+            simp [pendingLost_append, pendingLost, List.sum_append]
+            omega
+        · injection hs with hs; subst hs; exact both_setProd h rfl
+    · simp at hs
+  | pAbandon t rs cn =>
+    simp only [step] at hs
+    split at hs
+    · rename_i hg
+      simp only [Bool.and_eq_true] at hg
+      obtain ⟨⟨⟨hce, _⟩, _⟩, _⟩ := hg
+      obtain ⟨_, _, hdn, _⟩ := canEmit_iff.mp hce
+      injection hs with hs; subst hs
+      apply both_of h t (fun x hx => setProd_prod_ne _ _ hx) (fun _ _ => rfl) rfl rfl id
+      · intro hf
+        have := h.1.acct hf t
+        simp [nDropped_append, nDropped_map, hf]
+        omega
+      · intro _ hd; simp [hdn] at hd
+      · simpa using h.1.deliv t
+    · simp at hs
+  | pFinish t =>
+    simp only [step] at hs
+    split at hs
+    · rename_i s1 h1
+      injection hs with hs; subst hs
+      obtain ⟨f1, f2, f3, f4, f5, f6⟩ := finishCore_facts h1
+      have ha1 : AInv cfg s1 := ainv_frame h.1 f1 f3 f4 f5
+      refine ⟨ainv_reportTail ha1, ?_⟩
+      intro hf x hd
+      by_cases hx : x = t
+      · subst hx; exact reportTail_tail hf
+      · obtain ⟨r1, r2⟩ := reportTail_other (cfg := cfg) (s := s1) hx
+        rw [r1] at hd ⊢; rw [r2, f2 x hx, f6]
+        rw [f2 x hx] at hd
+        exact h.2 hf x hd
+    · simp at hs
+  | pFinishTrigger t =>
+    simp only [step] at hs
+    split at hs
+    · injection hs with hs; subst hs
+      exact both_frame h (fun _ => rfl) (fun x => by simp [pendingLost_append, pendingLost]) rfl rfl (fun _ => rfl)
+    · simp at hs
+  | kill t =>
+    simp only [step] at hs
+    injection hs with hs; subst hs; exact both_setProd h rfl
+  | rRead =>
+    simp only [step] at hs
+    split at hs
+    · simp at hs
+    · rename_i t i rest hp
+      injection hs with hs; subst hs
+      exact both_frame h (fun _ => rfl) (fun x => by simp [hp, pendingLost]) rfl rfl id
+    · rename_i t i rest hp
+      injection hs with hs; subst hs
+      apply both_recordMmap
+      exact both_frame h (fun _ => rfl) (fun x => by simp [hp, pendingLost]) rfl rfl id
+    · rename_i t n rest hp
+      injection hs with hs; subst hs
+      refine ⟨⟨h.1.acct, ?_, ?_⟩, h.2⟩
+      · intro x
+        have := h.1.deliv x
+        simp only [lostFrom, hp, pendingLost] at this ⊢
+        by_cases hx : t = x
+        · subst hx; simp [List.filter_append, List.sum_append] at this ⊢; omega
+        · simp [List.filter_append, hx] at this ⊢; omega
+      · have := h.1.total
+        simp [List.sum_append, this]
+    · rename_i rest hp
+      injection hs with hs; subst hs
+      exact both_frame h (fun _ => rfl) (fun x => by simp [hp, pendingLost]) rfl rfl id
+  | rFlush t i =>
+    simp only [step] at hs
+    split at hs
+    · injection hs with hs; subst hs
+      apply both_recordMmap
+      exact both_frame h (key_setProd (s := { s with shmemList := s.shmemList.erase ⟨t, i⟩ }) rfl)
+        (fun _ => rfl) rfl rfl id
+    · simp at hs
+  | rStop =>
+    simp only [step] at hs
+    injection hs with hs; subst hs
+    exact both_frame h (fun _ => rfl) (fun _ => rfl) rfl rfl id
+  | rRemaining =>
+    simp only [step] at hs
+    split at hs
+    · simp at hs
+    · split at hs
+      · injection hs with hs; subst hs; exact both_writeOut h
+      · simp at hs
+  | wPick w =>
+    simp only [step] at hs
+    split at hs
+    · injection hs with hs; subst hs
+      exact both_frame h (fun _ => rfl) (fun _ => rfl) rfl rfl id
+    · simp at hs
+  | wWrite w =>
+    simp only [step] at hs
+    split at hs
+    · injection hs with hs; subst hs; exact both_writeOut h
+    · simp at hs
+  | wSplice w =>
+    simp only [step] at hs
+    split at hs
+    · injection hs with hs; subst hs
+      exact both_frame h (fun _ => rfl) (fun _ => rfl) rfl rfl id
+    · simp at hs
+
+theorem both_reachable {cfg : Cfg} {nw : Nat} {s : State} (h : Reachable cfg nw s) : AInv cfg s ∧ TailInv cfg s := by
+  induction h with
+  | init =>
+    refine ⟨⟨fun _ t => by simp [State.init, nDropped], fun t => by simp [State.init, lostFrom, pendingLost], rfl⟩, ?_⟩
+    intro _ t hd; simp [State.init] at hd
+  | step a _ hs ih => exact both_step ih hs
 
 end Uft.Shmem
 
